@@ -119,6 +119,7 @@ class CFG:
         self.entry = self._new("entry")
         self.exit = self._new("exit")
         self.raise_exit = self._new("raise")
+        self._inlines = []   # (InlineBlock, [end nodes]): helper bodies analysed in place (inline.py)
         self._loops = []     # (continue_target, break_list)
         self._tries = []     # frames: dict(handlers=[Node], catch_all=bool, fin=None|dict)
         self.stmt_nodes: Dict[int, Node] = {}      # id(ast stmt) -> primary node
@@ -184,6 +185,14 @@ class CFG:
         return preds
 
     def _stmt(self, st, preds: List[Node]) -> List[Node]:
+        if st.__class__.__name__ == "InlineBlock":
+            # the body of a helper analysed where it is called: `return` inside it leaves the block (inline.py)
+            ends: List[Node] = []
+            self._inlines.append((st, ends))
+            out = self._block(st.body, preds)
+            self._inlines.pop()
+            return out + ends
+
         if isinstance(st, ast.If):
             t = self._new("test", st.test, st)
             self.stmt_nodes[id(st)] = t
@@ -271,6 +280,49 @@ class CFG:
                         self._edge(f, self.exit, N)
                 return fouts
             return outs
+
+        if isinstance(st, ast.Return) and any(not blk.tail for blk, _e in self._inlines):
+            blk, ends = [x for x in self._inlines if not x[0].tail][-1]
+            if isinstance(blk.result, tuple):
+                # `a, b = h(..)` with `return x, y` in the helper: a = x; b = y (one node each, the last one leaves the block)
+                vals = st.value.elts if isinstance(st.value, ast.Tuple) and len(st.value.elts) == len(blk.result) else None
+                cur = preds
+                last = None
+                if vals is None:
+                    synth = ast.Assign(targets=[ast.Tuple(elts=[ast.Name(id=r, ctx=ast.Store()) for r in blk.result],
+                                                          ctx=ast.Store())], value=st.value or ast.Constant(value=None))
+                    parts = [synth]
+                else:
+                    parts = [ast.Assign(targets=[ast.Name(id=r, ctx=ast.Store())], value=v) for r, v in zip(blk.result, vals)]
+                for synth in parts:
+                    ast.copy_location(synth, st)
+                    ast.fix_missing_locations(synth)
+                    n = self._new("stmt", synth, synth)
+                    self._link(cur, n)
+                    if may_raise(synth):
+                        self._exc(n)
+                    cur = [n]
+                    last = n
+                self.stmt_nodes[id(st)] = last
+                ends.append(last)
+                return []
+            if blk.result and st.value is not None:
+                synth = ast.Assign(targets=[ast.Name(id=blk.result, ctx=ast.Store())], value=st.value)
+            elif blk.result:
+                synth = ast.Assign(targets=[ast.Name(id=blk.result, ctx=ast.Store())], value=ast.Constant(value=None))
+            elif st.value is not None:
+                synth = ast.Expr(value=st.value)
+            else:
+                synth = ast.Pass()
+            ast.copy_location(synth, st)
+            ast.fix_missing_locations(synth)
+            n = self._new("stmt", synth, synth)
+            self.stmt_nodes[id(st)] = n
+            self._link(preds, n)
+            if may_raise(synth):
+                self._exc(n)
+            ends.append(n)
+            return []
 
         if isinstance(st, ast.Return):
             n = self._new("stmt", st, st)
